@@ -1,5 +1,6 @@
 //! Executor for GenericMutex (model: coq/Model/Mutex.v).
 use crate::core::*;
+use crate::lib_or_panic;
 use futures_core::future::FusedFuture;
 use futures_intrusive::sync::{GenericMutex, GenericMutexGuard, GenericMutexLockFuture};
 use futures_intrusive::verif::VerifNode;
@@ -47,7 +48,7 @@ impl<M: RawMutex + 'static> Exec for MutexExec<M> {
         let mx = self.mx;
         match op {
             [0, f] if (*f as usize) < self.futs.len() && !self.futs.alive(*f as usize) => {
-                let fut = lib(|| mx.lock()).unwrap();
+                let fut = lib_or_panic!(o, || mx.lock());
                 self.futs.put(*f as usize, fut);
                 o.r = vec![R_UNIT];
             }
